@@ -14,7 +14,7 @@ TRUST = ("TLC 1.8 and its Json/IOUtils modules; spec/Chess.tla as rules oracle (
 
 CHECKS = {
     "C01": dict(level=MC, design="3 C01", technique="TLA+ rules specification (Chess.tla) model-checked by TLC; TLC-enumerated position families replayed into the real move generator; recorded play and perft walks validated by TLC trace checking (ChessTrace.tla)",
-                text="Chess.tla states the rules; TLC explores it exhaustively to depth 2-3 with domain-closure/attack-redundancy/mirror invariants (design level), enumerates complete parametrised families (3/4-man endgames, en passant with pins, castling under attack, promotions, pins) whose expected move sets are replayed into MoveGenerator (spec->impl), and validates every event of recorded random/corpus play and perft trees against Legal/Apply (impl->spec). Universal over positions is approximated by exhaustive families + long random walks, which is what a move generator's case analysis needs.",
+                text="Chess.tla states the rules; TLC explores it exhaustively to depth 2-3 with domain-closure/attack-redundancy/mirror invariants (design level), enumerates complete parametrised families (3/4-man endgames, en passant with pins, castling under attack, promotions, pins) whose expected move sets are replayed into MoveGenerator (spec->impl), and validates every event of recorded random/corpus play, of the implementation's perft walk (every inner node: children = Legal, counts add up) and of the `weechess perft` command's output (per-move lines in Peg notation, successor FENs, totals) against Legal/Apply (impl->spec). Universal over positions is approximated by exhaustive families + long random walks, which is what a move generator's case analysis needs.",
                 note=TRUST),
     "C02": dict(level=MC, design="3 C02", technique="TLA+ Apply/Resolve operators; TLC trace validation of recorded move sequences and of every coordinate triple through the resolver; family replay of every successor",
                 text="Apply and Resolve are specified in Chess.tla; transition properties (rights only shrink, clocks, side alternation) are model-checked; every recorded move's successor, every successor in the enumerated families and, for sampled positions, all 20 480 coordinate triples through State::by_performing_moves are compared with the specification by TLC.",
@@ -59,16 +59,16 @@ CHECKS.update({
 
 SEARCH_NOTE = TRUST + "; the hooked synchronous entry point runs the same analyze_iterative as the public API; K+R v K / K+Q v K tablebases are accepted only after spec/TbCheck.tla holds at every index slot"
 CHECKS.update({
-    "C03": dict(level=MC, design="3 C03", technique="Search.tla (lazy-SMP negamax over a shared table, line rebuilt from the table) model-checked over all interleavings and all prior tables on abstract games, with a colliding-key configuration as counterexample guard; reports of real searches (1-32 workers, seeded schedules, reused memories built from specification-generated position variants) validated by TLC (SearchTrace.tla) with Legal/Apply",
+    "C03": dict(level=MC, design="3 C03", technique="Search.tla (lazy-SMP negamax over a shared table, line rebuilt from the table) model-checked over all interleavings and all prior tables on abstract games, with a colliding-key configuration as counterexample guard; reports of real searches (1-32 workers, seeded schedules, reused memories built from specification-generated position variants) validated by TLC (SearchTrace.tla) with Legal/Apply; per-worker white-box event streams validated against the algorithm (SearchWB.tla: stored moves legal, keys functional)",
                 text="LegalLine/ReportBeforeEnd/NoPanic hold in the model for every interleaving of 2 workers and every table an earlier search could leave when keys respect PosKey, and fail (D1 shape) when two nodes share a key; every line reported by ~2 000 (quick) real searches, including sessions that reuse one memory across variants differing only in castling/en-passant state, is replayed move by move against the rules.",
                 note=SEARCH_NOTE),
     "C04": dict(level=MC, design="3 C04", technique="Search.tla control layer (flag, poll period K, per-iteration counters, uninterruptible first iteration, Stop at any instant) model-checked incl. liveness StopObeyed/Termination, with the pinned loop and pinned assert as counterexample guards; real searches cancelled at exact node indices (hook), terminal roots, tiny trees, public threaded API with Stop/drop - validated by SearchTrace.tla",
                 text="Every Stop instant is enumerated on the model (bounded response, stop obeyed, report before end, no panic, terminal root quiet); on the code the flag is set at every node index of small searches for 1/2/4 workers, mated/stalemated roots from the checked tablebases are searched, tiny trees without depth limit must end through Stop, capture-heavy positions are stopped inside quiescence, and the public API is stopped at sampled instants with the receiver kept or dropped; the returned artifact seeds a following search.",
                 note=SEARCH_NOTE + "; hang-detector limit 5 s after Stop (the code needs milliseconds); a harness without progress is killed and the dangling search judged as timeout"),
-    "C06": dict(level=MC, design="3 C06", technique="Tablebase certificates: untrusted retrograde tables for K+R v K and K+Q v K checked entry by entry by TLC against Chess.tla (TbCheck.tla); Search.tla MateSound/MateFound model-checked under all interleavings of 3 workers; reports of real searches judged by SearchTrace.tla with the checked tables",
+    "C06": dict(level=MC, design="3 C06", technique="Tablebase certificates: untrusted retrograde tables for K+R v K and K+Q v K checked entry by entry by TLC against Chess.tla (TbCheck.tla); Search.tla MateSound/MateFound model-checked under all interleavings of 3 workers on games with transpositions (1.2 M states); reports of real searches judged by SearchTrace.tla with the checked tables",
                 text="Soundness (a mate claim implies a forced mate and the first move keeps it) and completeness (forced mate in n <= 5 plies found at depth n..n+2 from a fresh memory) are decided exactly on the two complete 3-man families, both colours, 1-32 workers with seeded schedules.",
                 note=SEARCH_NOTE),
-    "C17": dict(level=MC, design="3 C17", technique="Search.tla HistoryHit / RepetitionAvoided model-checked on a game with two mating moves; real searches of tablebase positions with two optimal mating moves and the successor of one recorded (hook, or searched first on the same memory) judged by SearchTrace.tla",
+    "C17": dict(level=MC, design="3 C17", technique="Search.tla HistoryHit / RepetitionAvoided model-checked on a game with two mating moves; real searches of tablebase positions with two optimal mating moves and the successor of one recorded (hook, or searched first on the same memory) judged by SearchTrace.tla; worker streams validated by SearchWB.tla (every history hit is a recorded non-root position and vice versa)",
                 text="The model shows the recorded successor is never chosen while mate is still reported; on the code both ways of recording are used (cold table through the hook, warm table as in a game), depth n..n+2, 1-8 workers.",
                 note=SEARCH_NOTE),
     "C19": dict(level=EX, design="3 C19", technique="Search.tla determinism configuration (one worker, fixed order, no Stop) model-checked; triples of real runs (two in one process, one in another; hooked and public entry points) compared event by event by TLC (SearchTrace!TRepro)",
@@ -78,7 +78,7 @@ CHECKS.update({
 
 UCI_NOTE = TRUST + "; stdout is one ordered stream and every cancelling handler joins the writer thread before returning, so an isready barrier after each command orders the transcript; the i-th SearchStart hook line belongs to the i-th go not answered from the book"
 CHECKS.update({
-    "C07": dict(level=MC, design="3 C07", technique="Uci.tla session model (commands + internal SearchFinish anywhere) model-checked; its simulated command sequences instantiated and fed to the real `weechess uci` process; transcripts validated by UciTrace.tla (queue of owed bestmoves, barriers, position computed by Chess.tla, LAN by ChessText.tla)",
+    "C07": dict(level=MC, design="3 C07", technique="Uci.tla session model (commands + internal SearchFinish anywhere) model-checked; its simulated command sequences instantiated and fed to the real `weechess uci` process; transcripts validated by UciTrace.tla (queue of owed bestmoves, barriers, isready-while-searching ordering clause, position computed by Chess.tla, LAN by ChessText.tla)",
                 text="All command histories up to length 6 are explored on the model (no unsolicited bestmove, answered at barrier, at most one due); the real process is driven by model-generated sequences over book/open/terminal/colliding/tiny-tree positions with legal move lists in three pacing modes, and every transcript must be a behaviour: uciok/readyok, `.state` FEN equal to the specification's position, exactly one legal LAN bestmove per go on an open position before the next cancelling command returns, exit status 0.",
                 note=UCI_NOTE),
     "C14": dict(level=EX, design="3 C14", technique="TextGen.tla mutation model (single/field/double mutations of canonical texts, as code points) generated by TLC and replayed through the FEN and SAN readers in debug and release builds, outcomes judged by ChessTrace!TParse; Uci.tla Garbage action: model-generated sessions with garbage lines injected into the real UCI process, judged by UciTrace.tla",
